@@ -281,7 +281,7 @@ func init() {
 			"whitespace-only layouts vary blanks and line terminators between tokens (no comments, nothing after the last token)",
 			"formatter defects are recorded per (failure class, focal construct kind); a new defect in a kind that already fails in the same class is not distinguishable",
 		},
-		Plan: func(p core.Params) int { return p.Pick(100000, 800000) },
+		Plan: func(p core.Params) int { return p.Pick(100000, 2000000) },
 		Run: func(c *core.Ctx, idx int) {
 			if idx%25 == 7 {
 				c17Scaled(c, idx)
